@@ -9,9 +9,17 @@ import json
 from harness.common import err_kind, deep_compare
 
 PID = "C24"
-DISABLED = True
 THEOREMS = [
     "PorepyVerif.C24.reachable_inv",
+    "PorepyVerif.C24.listing_sorted_nodup",
+    "PorepyVerif.C24.listing_all",
+    "PorepyVerif.C24.interface_pair_roundtrip",
+    "PorepyVerif.C24.remove_exact",
+    "PorepyVerif.C24.one_boundary_grid_per_positive_dim",
+    "PorepyVerif.C24.replace_exact",
+    "PorepyVerif.C24.replace_loop_visits_all",
+    "PorepyVerif.C24.rejections",
+    "PorepyVerif.C24.valid_calls_accepted",
 ]
 LEAN_MODULES = ["PorepyVerif.C24.Props"]
 AUDIT = "PorepyVerif/C24/Audit.lean"
